@@ -25,8 +25,8 @@ PLAN = {
     "C10": dict(mc_q=[("nestsmall", 1, 4), ("nesterr", 2, 3)],
                 mc_t=[("nest", 1, 5), ("nest3", 1, 5), ("nesterr", 2, 4)],
                 gen_q=("nest", 250), gen_t=("nest,err", 4000)),
-    "C17": dict(mc_q=[("single", 2, 4), ("singleeres", 2, 4), ("singlenil", 2, 4)],
-                mc_t=[("single", 3, 4), ("singleeres", 3, 4), ("singlenil", 3, 4), ("flow2empty", 1, 4)],
+    "C17": dict(mc_q=[("single", 2, 4), ("singleeres", 2, 4), ("singlenil", 2, 4), ("singlererun", 1, 4)],
+                mc_t=[("single", 3, 4), ("singleeres", 3, 4), ("singlenil", 3, 4), ("singlererun", 1, 4), ("flow2empty", 1, 4)],
                 gen_q=("single,plain", 200), gen_t=("single,plain,err", 4000)),
     "C18": dict(mc_q=[("single", 2, 4), ("flow2empty", 1, 4), ("flowbatch", 2, 4), ("nestsmall", 1, 3)],
                 mc_t=[("single", 3, 4), ("flow2empty", 1, 6), ("nest", 1, 4)],
